@@ -17,8 +17,8 @@ OPTIONS = {
     "thorough": {"max_paths": 1500000, "unit_budget_s": 3300},
 }
 BOUNDS = {
-    "quick": {"raw_bytes": "all byte strings of length <= 6 (fresh server/client), <= 5 in the other pre-states", "window": "2 symbolic octets at every offset of 17 seed messages", "cuts": "whole delivery and every 2-chunk cut for raw strings of length <= 4; windows delivered whole and cut once in the middle of the window", "pre_states": "client/server x fresh/opened/search/binding", "histories": "every pair of application calls (accepted or refused) followed by a delivered message of every kind with a symbolic id 0..6"},
-    "thorough": {"raw_bytes": "all byte strings of length <= 8 (fresh), <= 6 other pre-states", "window": "3 symbolic octets at every offset", "cuts": "every 2-chunk cut for raw strings <= 5", "pre_states": "same"},
+    "quick": {"raw_bytes": "all byte strings of length <= 7 (fresh server) / <= 6 (fresh client) / <= 4 (other pre-states)", "window": "2 symbolic octets at every offset of 17 seed messages", "cuts": "whole delivery and every 2-chunk cut for raw strings of length <= 4; windows delivered whole and cut once in the middle of the window", "pre_states": "client/server x fresh/opened/search/binding", "histories": "every pair of application calls (accepted or refused) followed by a delivered message of every kind with a symbolic id 0..6"},
+    "thorough": {"raw_bytes": "all byte strings of length <= 10 (fresh server) / <= 9 (fresh client) / <= 7 (other pre-states)", "window": "3 symbolic octets at every offset", "cuts": "every 2-chunk cut for raw strings <= 5", "pre_states": "same"},
 }
 OUTSIDE = [
     "corruption wider than the window in long messages",
@@ -42,15 +42,13 @@ def units(tier):
         pres = common.SERVER_PRE if side == "server" else common.CLIENT_PRE
         for pre in pres:
             if quick:
-                nmax = (6 if side == "server" else 5) if pre == "fresh" else 4
+                nmax = (7 if side == "server" else 6) if pre == "fresh" else 4
                 cutmax = 3
             else:
-                nmax = 8 if pre == "fresh" else 6
+                nmax = (10 if side == "server" else 9) if pre == "fresh" else 7
                 cutmax = 5
             for n in range(0, nmax + 1):
-                parts = [None]
-                if n >= 7:
-                    parts = list(range(16))
+                parts = common.raw_parts(n)
                 for part in parts:
                     us.append({"name": f"raw_{side}_{pre}_n{n}" + (f"_p{part}" if part is not None else ""), "shape": {"kind": "raw", "side": side, "pre": pre, "n": n, "cut": None, "part": part}})
                 if n <= cutmax and pre in ("fresh", "search"):
@@ -127,9 +125,7 @@ def body(ctx, shape):
         return
     if kind == "raw":
         data = ctx.bytes("data", shape["n"])
-        if shape.get("part") is not None and shape["n"] > 0:
-            p = shape["part"]
-            ctx.assume(ctx.all(data[0] >= p * 16, data[0] < (p + 1) * 16))
+        common.assume_part(ctx, data, shape.get("part"))
     else:
         seed = common.seed_bytes(ctx, shape["seed"])
         w = ctx.bytes("w", shape["k"])
